@@ -24,6 +24,9 @@ mod memory_accessor;
 mod test_runner;
 /// Miscellaneous utility methods
 mod utils;
+/// Verification hooks
+#[cfg(feature = "verif")]
+mod verif;
 
 #[derive(argh::FromArgs, PartialEq, Eq, Debug)]
 /// mos - https://mos.datatra.sh
